@@ -150,6 +150,8 @@ struct Global {
     ReusePolicy reuse = REUSE_NEVER;
     uint64_t junk_seed = 0;
     int redzone = 32;
+    bool align8 = false;           // user pointers at 8 (mod 16): what a tracking allocator with an 8-byte header of its own hands out
+    bool allow_huge = false;       // set by the C15 engine around one malloc: requests up to 6 GiB are granted from a sparse mapping
     // state
     std::vector<Block> blocks;
     std::vector<uint32_t> free_lists[64];  // by size class, indices into blocks (lifo reuse)
@@ -195,6 +197,9 @@ Block* heap_find(const void* p);            // exact start
 Block* heap_find_containing(const void* p); // slow
 bool heap_redzones_intact(const Block& b);
 int heap_check_all_redzones();
+struct HugeBlock { uintptr_t addr; size_t size; uint32_t serial; int mgr; bool live; };
+extern std::vector<HugeBlock> g_huge;
+HugeBlock* huge_find(const void* p, bool containing);
 size_t heap_usable(const void* p);          // bytes from p to the end of the live block that contains p (0 if none)
 int heap_live_count(int mgr = -1, int tag = -1, int op = -1);
 std::string heap_live_desc(int mgr = -1, int tag = -1, int op = -1);
